@@ -255,8 +255,10 @@ class FixedWindowPolicy:
         return self._window_size
 
     def _get_window_start(self, now: Instant) -> Instant:
-        now_s = now.to_seconds()
-        return Instant.from_seconds((now_s // self._window_size) * self._window_size)
+        # Integer nanoseconds: float floor division (0.3 // 0.1 == 2.0) puts exact
+        # boundary instants into the previous, possibly exhausted, window.
+        window_ns = max(1, int(self._window_size * 1_000_000_000))
+        return Instant((now.nanoseconds // window_ns) * window_ns)
 
     def _maybe_reset(self, now: Instant) -> None:
         ws = self._get_window_start(now)
